@@ -322,6 +322,12 @@ var preStates = []struct {
 		ni string
 		e  proto.Message
 	}{{D, ribx.NHEntry(1, "1.1.1.1")}, {D, ribx.V4Entry("203.0.113.0/24", 9, "", nil)}, {D, ribx.NHGEntry(8, 0, m(8, 1))}, {D, ribx.V6Entry("2001:db8:9::/48", 9, "", nil)}}},
+	// operations are held FOR THE KEYS OF THE SEEDS (their group 9 / next-hop 7 is missing): a rejected operation
+	// on a key must leave what is held for that key alone
+	{name: "seed-keys-held", steps: []struct {
+		ni string
+		e  proto.Message
+	}{{D, ribx.NHEntry(1, "1.1.1.1")}, {D, ribx.V4Entry("198.51.100.0/24", 9, "", nil)}, {D, ribx.V6Entry("2001:db8:1::/48", 9, "", nil)}, {D, ribx.MPLSEntry(200, 9, "", nil)}, {D, ribx.NHGEntry(5, 0, m(7, 1))}}},
 }
 
 func build(pi int) (*server.Server, error) {
